@@ -812,7 +812,7 @@ func TestVerifC18Mutex(t *testing.T) {
 			holds = []time.Duration{ms(3.2+0.3*rng.Float64(), 2*time.Second)}
 		case 4: // the default 10 s of the primary: > 3 x
 			hc, hid, hmem, configured = ce.members[0], "h0", 0, 10*time.Second
-			holds = []time.Duration{ms(3.1+0.2*rng.Float64(), 10*time.Second)}
+			holds = []time.Duration{ms(3.3+0.2*rng.Float64(), 10*time.Second)}
 		case 5: // configured 1 s: > 10 x
 			hc, configured = ce.slow, time.Second
 			holds = []time.Duration{ms(10.2+0.6*rng.Float64(), time.Second)}
